@@ -169,7 +169,13 @@ class _EG(_Adapter):
 
     def _xy(self, k):
         d = self.data(k)
-        X = np.asarray(d["levels"], dtype=float).reshape(-1, 1)
+        # datasets with equal feature values are handed over as the *same* array object (a user refitting on the
+        # same X with new labels / groups): nothing may be keyed on the identity of X
+        cache = self.__dict__.setdefault("_xcache", {})
+        key = tuple(d["levels"])
+        if key not in cache:
+            cache[key] = np.asarray(d["levels"], dtype=float).reshape(-1, 1)
+        X = cache[key]
         y = np.asarray(d["yreal"], dtype=float) if self.cfg["moment"] == "BoundedGroupLoss" else np.asarray(d["y"])
         return X, y, np.asarray(d["g"])
 
@@ -401,6 +407,8 @@ def check(case):
     if case["estimator"] == "adv" and refit_diff and not case["config"]["regressor"] and \
             case["D1"].get("yenc") != case["D2"].get("yenc"):
         tags.add("adv_refit_other_label_set")
+    if case.get("shared_X") and refit_diff:
+        tags.add("refit_same_X_object_other_labels")
     if refit_diff or post_fit_copy:
         tags.add("nt")
     if refit_diff:
@@ -468,6 +476,21 @@ def _eg_hist(draw):
                        "eta0": draw(st.sampled_from([0.5, 2.0])), "lp": draw(st.booleans())}}
 
 
+def _share_X(draw, h):
+    """In a third of the reduction histories D2 has the feature values of D1 (so the same X object is passed
+    again) with the labels and groups of D1 in another order."""
+    if draw(st.integers(0, 2)) == 0:
+        d1 = h["D1"]
+        n = len(d1["y"])
+        perm = draw(st.permutations(range(n)))
+        d2 = dict(d1)
+        for key in ("y", "g", "yreal"):
+            d2[key] = [d1[key][i] for i in perm]
+        h["D2"] = d2
+        h["shared_X"] = True
+    return h
+
+
 @st.composite
 def _gs_hist(draw):
     labels = draw(st.sampled_from([["a", "b", "c"], [0, 1, 2]]))
@@ -531,6 +554,8 @@ def _adv_hist(draw):
 @st.composite
 def _hist_strategy(draw):
     h = draw(st.one_of(_to_hist(), _eg_hist(), _gs_hist(), _cr_hist(), _adv_hist(), _eg_hist(), _gs_hist()))
+    if h["estimator"] in ("eg", "gs"):
+        h = _share_X(draw, h)
     vals = RECONF_VALUES[h["estimator"]]
     h["config2"] = {k: draw(st.sampled_from(v)) for k, v in vals.items()}
     if h["estimator"] == "to":
@@ -559,6 +584,9 @@ _RED_D = [
 ]
 
 
+_RED_D2_SAME_X = dict(_RED_D[0], y=[1 - v for v in _RED_D[0]["y"]][::-1], g=_RED_D[0]["g"][::-1])
+
+
 def _enumerate(tier):
     max_len = 3 if tier == "quick" else 4
     seqs = [list(s) for L in range(1, max_len + 1) for s in itertools.product(OPS + ["reconfig"], repeat=L)]
@@ -578,7 +606,7 @@ def _enumerate(tier):
             yield {"estimator": "gs", "ops": s, "seed": 0, "D1": _RED_D[0], "D2": _RED_D[1],
                    "config": {"moment": "DemographicParity", "bound": 0.01, "grid_size": 11, "grid_limit": 2.0, "cw": 0.0},
                    "config2": {"cw": 1.0, "grid_size": 6}}
-            yield {"estimator": "eg", "ops": s, "seed": 5, "D1": _RED_D[0], "D2": _RED_D[1],
+            yield {"estimator": "eg", "ops": s, "seed": 5, "D1": _RED_D[0], "D2": _RED_D2_SAME_X,
                    "config": {"moment": "EqualizedOdds", "bound": 0.05, "eps": 0.05, "max_iter": 5, "nu": 1e-3, "eta0": 2.0, "lp": False},
                    "config2": {"eps": 0.2, "lp": True}}
 
@@ -598,7 +626,7 @@ PROBES = {"D9": [("histories_sampled", _D9_PROBE)]}
 
 SUBS = [
     Sub("histories_sampled", check, strategy=_hist_strategy, quick=220, thorough=6000, shards=16, shrink_quick=False,
-        floors={"nt": 0.254, "refit_other_data": 0.1, "copy_after_fit": 0.146, "est:to": 0.05, "est:eg": 0.1, "est:gs": 0.1,
+        floors={"nt": 0.15, "refit_other_data": 0.06, "copy_after_fit": 0.08, "est:to": 0.05, "est:eg": 0.1, "est:gs": 0.1,
                 "est:cr": 0.05, "est:adv": 0.05}),
     Sub("histories_exhaustive", check, enumerate=_enumerate, shards=16, exhaustive=True),
 ]
